@@ -186,6 +186,9 @@ def report(prop, args, results, known, seed, wall, all_ids):
 
     os.makedirs(os.path.join(ROOT, 'evidence'), exist_ok=True)
     os.makedirs(os.path.join(ROOT, 'replay', prop), exist_ok=True)
+    if not args.only:
+        for fn in os.listdir(os.path.join(ROOT, 'replay', prop)):
+            os.unlink(os.path.join(ROOT, 'replay', prop, fn))
     vlines = []
     seen_v = set()
     for r, v in violations:
